@@ -1,7 +1,7 @@
 """C16 - richness and overlap estimators follow their closed forms for every count vector."""
 from .. import AnalysisBroken
 from ..eff import check_pure_params
-from ..rules import Equiv, canon_params, check_equiv, check_scope, cmp, guards_imply, len_of, where_of
+from ..rules import Equiv, canon_params, check_equiv, check_scope, cmp, guards_imply, len_of, std_rewrites, where_of
 from ..terms import const, head, is_const, show, strip, subst
 
 CLAIMED = True
@@ -130,7 +130,7 @@ def run(r):
         code = subst(s.ret, cp)
         sp = subst(spec[n].ret, canon_params(spec[n]))
         counts = ("param", "#0")
-        eq = Equiv(vec=lambda t, c=counts: t == c)
+        eq = Equiv(vec=lambda t, c=counts: t == c, rewrites=std_rewrites())
         check_equiv(rep, "C16-RF", q, f"{n} equals its closed form on every path", code, sp, where_of(r.P, s.func, s.func.node), eq=eq,
                     assume=cmp(">=", len_of(counts), const(1)), key="closed form")
     rep.floor("C16-RF", 4)
@@ -185,7 +185,6 @@ def run(r):
         rep.analysed(q)
         code = subst(s.ret, canon_params(s))
         sp = subst(spec[n].ret, canon_params(spec[n]))
-        from ..rules import std_rewrites
         eq = Equiv(rewrites=std_rewrites() + [set_rewrite, truthy_sets], modelled={"pandas.Series", "builtins.set", "builtins.type"})
         check_equiv(rep, "C16-SETF", q, f"{n} equals its set-algebra closed form after dropping missing values", code, sp,
                     where_of(r.P, s.func, s.func.node), eq=eq, key="closed form")
